@@ -434,7 +434,20 @@ func drain(s tcell.Screen) []string {
 // callback becomes an event: all n come out, in order (C19; more than the event queue holds is the point).
 func burst(s tcell.Screen, n int) []string {
 	resCh := make(chan []string, 1)
+	gate := make(chan struct{})
+	// the gate is opened by a goroutine that does nothing but yield: it gets the processor whenever the firing goroutine
+	// yields or blocks, so it opens the gate either well after the burst (nothing blocked) or — when a callback waits for
+	// room in the queue — as soon as only it can run.  No wall clock (the harness detects deadlock by JS idleness).
 	go func() {
+		for k := 0; k < 8*n+64; k++ {
+			runtime.Gosched()
+		}
+		close(gate)
+	}()
+	go func() {
+		// the application is busy elsewhere while the callbacks arrive (a poller parked in PollEvent would be scheduled after
+		// every single callback and the queue would never fill): it starts polling when the gate opens
+		<-gate
 		var evs []string
 		for {
 			ev := s.PollEvent()
